@@ -177,7 +177,7 @@ func (e *Engine) VerifyFunc(fc *FuncContract) *FuncResult {
 	for _, b := range fn.Blocks {
 		res.NInstr += len(b.Instrs)
 	}
-	ctx := &vcCtx{e: e, fnKey: res.Key, noOverflow: fc.NoOverflow != ""}
+	ctx := &vcCtx{e: e, fnKey: res.Key, noOverflow: fc.NoOverflow != "", wrapSigned: fc.Wraparound != ""}
 	fr := &frame{e: e, c: ctx, fn: fn, pkg: e.PkgOf[fc], vals: map[ssa.Value]*Val{}, st: newState(), reach: TTrue, fc: fc, top: true,
 		inline: map[string]bool{}}
 	for _, n := range fc.Inline {
@@ -216,6 +216,7 @@ func (e *Engine) VerifyFunc(fc *FuncContract) *FuncResult {
 			return fail(err)
 		}
 		ctx.assume(t)
+		fr.learn(t, true) // bounds stated by a precondition hold on every path
 	}
 	for _, u := range fc.Uses {
 		t, err := e.lemmaFact(fc, u)
